@@ -19,6 +19,9 @@
 (***************************************************************************)
 EXTENDS Naturals, Sequences, FiniteSets, TLC
 
+CONSTANTS NameChars(_),   \* characters of a name component, as a sequence of one-character strings
+          CharOrd(_)      \* code point of a character (the code compares case paths as strings)
+
 Front(s) == SubSeq(s, 1, Len(s) - 1)
 Last(s)  == s[Len(s)]
 IsClause(ln) == ln.k \in {"case", "else", "end"}
@@ -28,7 +31,8 @@ IsClause(ln) == ln.k \in {"case", "else", "end"}
 
 \* frames: hierarchy parents ("p") and open clause blocks ("b") on one stack
 PFrame(ind, nm) == [t |-> "p", ind |-> ind, nm |-> nm, taken |-> FALSE, cur |-> TRUE, els |-> FALSE]
-BFrame(ind, c)  == [t |-> "b", ind |-> ind, nm |-> <<>>, taken |-> c, cur |-> c, els |-> FALSE]
+\* a clause keyword may carry a path prefix (`plant.@case ...`), which then prefixes the nodes of the clause
+BFrame(ind, c, nm) == [t |-> "b", ind |-> ind, nm |-> nm, taken |-> c, cur |-> c, els |-> FALSE]
 
 RECURSIVE PopNode(_, _), PopClause(_, _)
 \* a node or group line at level i ends every parent and every block that is not shallower
@@ -68,13 +72,13 @@ IdealStep(st, ln) ==
          u2   == st.u \/ ln.ind > st.prevend
      IN CASE ln.k = "case" ->
                IF same
-               THEN [st EXCEPT !.fr = [fr1 EXCEPT ![n].cur = ~top.taken /\ ln.c, ![n].taken = top.taken \/ ln.c],
+               THEN [st EXCEPT !.fr = [fr1 EXCEPT ![n].cur = ~top.taken /\ ln.c, ![n].taken = top.taken \/ ln.c, ![n].nm = ln.nm],
                                !.u = u2 \/ top.els,                                 \* @case after @else: undocumented
                                !.prevend = 99]
-               ELSE [st EXCEPT !.fr = Append(fr1, BFrame(ln.ind, ln.c)), !.u = u2, !.prevend = 99]
+               ELSE [st EXCEPT !.fr = Append(fr1, BFrame(ln.ind, ln.c, ln.nm)), !.u = u2, !.prevend = 99]
           [] ln.k = "else" ->
                IF same
-               THEN [st EXCEPT !.fr = [fr1 EXCEPT ![n].cur = ~top.taken, ![n].taken = TRUE, ![n].els = TRUE],
+               THEN [st EXCEPT !.fr = [fr1 EXCEPT ![n].cur = ~top.taken, ![n].taken = TRUE, ![n].els = TRUE, ![n].nm = ln.nm],
                                !.u = u2 \/ top.els,                                 \* second @else: undocumented
                                !.prevend = 99]
                ELSE [st EXCEPT !.ok = FALSE]                                        \* misplaced @else
@@ -98,12 +102,12 @@ Digits == <<"0", "1", "2", "3", "4", "5", "6", "7", "8", "9">>
 CompChars(c) == IF c = "@" THEN <<"@">>
                 ELSE IF IsCaseComp(c) THEN LET n == CHOOSE m \in 1..20 : c = CaseComp(m)
                                            IN IF n < 10 THEN <<"@", Digits[n + 1]>> ELSE <<"@", Digits[(n \div 10) + 1], Digits[(n % 10) + 1]>>
-                ELSE <<c>>                                  \* names used in scenarios are one character long
+                ELSE NameChars(c)
 RECURSIVE Chars(_)
 Chars(p) == IF p = <<>> THEN <<>> ELSE IF Len(p) = 1 THEN CompChars(p[1]) ELSE CompChars(Head(p)) \o <<".">> \o Chars(Tail(p))
-Ord(ch) == CASE ch = "-" -> 45 [] ch = "." -> 46 [] ch = "@" -> 64
+Ord(ch) == CASE ch = "." -> 46 [] ch = "@" -> 64
              [] ch \in {"0","1","2","3","4","5","6","7","8","9"} -> 48 + (CHOOSE d \in 0..9 : Digits[d + 1] = ch)
-             [] ch = "a" -> 97 [] ch = "b" -> 98 [] ch = "g" -> 103 [] ch = "h" -> 104 [] OTHER -> 120
+             [] OTHER -> CharOrd(ch)
 RECURSIVE LexLess(_, _)
 LexLess(s, t) == IF t = <<>> THEN FALSE
                  ELSE IF s = <<>> THEN TRUE
@@ -170,7 +174,7 @@ MStep(st, ln) ==
    LET \* (a) node.parse: a clause line always registers a case id and gets the name @<id>
        id   == Len(st.cs) + 1
        st1  == IF IsClause(ln) THEN [st EXCEPT !.cs = Append(st.cs, NoCase)] ELSE st
-       nm   == IF IsClause(ln) THEN <<CaseComp(id)>> ELSE ln.nm
+       nm   == IF IsClause(ln) THEN ln.nm \o <<CaseComp(id)>> ELSE ln.nm
        val  == IF ln.k = "case" THEN ln.c ELSE TRUE
        \* (b) hierarchy.register
        par2 == Append(PopPar(st1.par, ln.ind), [ind |-> ln.ind, nm |-> nm])
